@@ -13,6 +13,9 @@ mod filter;
 mod opening_hours;
 mod utils;
 
+#[cfg(ohrs_verif)]
+pub mod verif;
+
 #[cfg(test)]
 mod tests;
 
